@@ -1,9 +1,10 @@
 // Obligation unit `layout`: variant-closing strategies of the native builder.
-//!min-verified: 40
+//!min-verified: 44
 //!assume: std: `X.iter().cloned()` yields the elements of X in order (rule R10, `vx_iter_cloned` is external_body)
 //!assume: std: Vec::retain keeps, in order, exactly the elements its predicate accepts (assume_specification); `X.clone().into_iter().any(p)` is true iff p accepts some element of the source (rule R12, external_body wrapper). With these, `remove_data` itself is proved here; it is also checked by Kani (bounded) in unit kani-definition (harness l4_remove_data_is_filter_keeping_order)
 //!assume: derive(Clone, Copy, PartialEq, Eq) on DatumId behaves as documented (rule R5)
 //!assume: domain bound: ends of existing data <= 2^30, size+align of an added datum <= 2^14, <= 2^16 additions per close; outside it usize arithmetic of the real code overflows
+//!assume: select_best returns the result of one of its two candidate closures (sig-only, external_body): discharged by Kani on the full usize domain in unit kani-simple-leaves (harness l7_select_best_returns_one_candidate_and_terminates)
 //!assume: Verus' encoding of Rust semantics, Z3, rustc front end
 //!props fn align_bytes : C01, C02
 //!props fn end : C01, C02, C03
@@ -13,6 +14,8 @@
 //!props fn append_data_reverse : C01, C02, C03, C12, C13
 //!props fn basic : C01, C02, C03, C12, C13
 //!props fn fit_datum_to_gap : C01, C02
+//!props fn select_start_or_end_of_gap : C01, C02
+//!props fn selection_value : C01, C02
 //!props fn offset : C01, C02, C03
 //!props fn size : C01, C02, C03
 //!props fn type_align : C01, C02, C03
@@ -25,7 +28,8 @@
 //!props lemma lemma_history_step : C01, C02, C03
 // Everything between `// from <file>:<line>` markers and the next blank template text is copied
 // from /repo on every run by lib/vx.py; contracts are spliced in.  See DESIGN.md 3.2.
-#![feature(allocator_api)]
+#![feature(allocator_api, panic_internals, sized_hierarchy)]
+#![allow(internal_features)]
 #![allow(unused_imports, unused_variables, dead_code, non_snake_case, unused_mut)]
 use vstd::prelude::*;
 
@@ -1065,9 +1069,19 @@ pub proof fn lemma_insert_wf(data: Seq<DatumId>, defs_b: Defs, defs_a: Defs, dc:
 //@end
 
 // ---------------------------------------------------------------------------------------------
-// L7 (part): fit_datum_to_gap of simple.rs.  select_best / select_start_or_end_of_gap use
-// `break <expr>` and a reference pattern, which this Verus rejects: they are under Kani contracts
-// (kani/incrate/truc_simple.rs).  The main body of simple() is covered by the bounded stand-in only.
+// L7 (part): fit_datum_to_gap, select_start_or_end_of_gap and FittedDatum::selection_value of
+// simple.rs.  select_best uses `break <expr>`, which this Verus rejects: its contract ("returns what
+// one of its two candidates returns") is assumed here (sig-only) and discharged by Kani on the full
+// usize domain (kani/incrate/truc_simple.rs, harness l7_select_best_…).  The main body of simple()
+// is covered by the bounded stand-in only.
+
+// `assert_eq!` expands to a call of core::panicking::assert_failed: it must be unreachable
+#[verifier::external_type_specification]
+pub struct ExAssertKind(core::panicking::AssertKind);
+
+pub assume_specification<T, U>[ core::panicking::assert_failed ](_0: core::panicking::AssertKind, _1: &T, _2: &U, _3: std::option::Option<std::fmt::Arguments<'_>>) -> !
+    where T: std::marker::MetaSized + std::fmt::Debug + ?Sized, U: std::marker::MetaSized + std::fmt::Debug + ?Sized,
+    requires false;
 
 //@struct truc/src/record/definition/builder/native/variant/simple.rs :: struct Gap
 //@end
@@ -1075,7 +1089,7 @@ pub proof fn lemma_insert_wf(data: Seq<DatumId>, defs_b: Defs, defs_a: Defs, dc:
 //@struct truc/src/record/definition/builder/native/variant/simple.rs :: struct FullGap
 //@end
 
-#[derive(Clone, Copy, PartialEq, Eq, Structural)]
+#[derive(Clone, Copy, PartialEq, Eq, Structural, Debug)]
 //@struct truc/src/record/definition/builder/native/variant/simple.rs :: enum FittedDatumKind
 //@end
 
@@ -1102,6 +1116,71 @@ pub proof fn lemma_insert_wf(data: Seq<DatumId>, defs_b: Defs, defs_a: Defs, dc:
             &&& f.gap_after == gap.end - f.datum_end
             &&& r.unwrap().0.0 == f.gap_before + f.gap_after
         },
+//@end
+
+impl FittedDatum {
+//@fn truc/src/record/definition/builder/native/variant/simple.rs :: impl FittedDatum :: fn selection_value
+//@ ret r
+//@ ensures
+        r == (if self.kind == FittedDatumKind::StartOfGap { self.datum_end } else { self.datum_start }),
+//@end
+}
+
+// contract assumed here, discharged by Kani (complete: full usize domain, 64-shift loop unwound)
+//@fn truc/src/record/definition/builder/native/variant/simple.rs :: fn select_best
+//@ attr #[verifier::external_body]
+//@ sig-only
+//@ ret r
+//@ requires
+        first_result.requires(()),
+        second_result.requires(()),
+//@ ensures
+        first_result.ensures((), r) || second_result.ensures((), r),
+//@end
+
+/// a placement of a datum of `size` bytes inside the hole [gap_start, gap_end)
+pub open spec fn placed_in_gap(f: FittedDatum, gap_start: int, gap_end: int, size: int, align: int) -> bool {
+    &&& gap_start <= f.datum_start && f.datum_end <= gap_end // [C01]
+    &&& f.datum_end == f.datum_start + size
+    &&& f.datum_start as int % align == 0 // [C02]
+    &&& f.gap_before == f.datum_start - gap_start
+    &&& f.gap_after == gap_end - f.datum_end
+}
+
+//@fn truc/src/record/definition/builder/native/variant/simple.rs :: fn select_start_or_end_of_gap
+//@ ret r
+//@ requires
+        type_align > 0,
+        start_of_gap.kind == FittedDatumKind::StartOfGap,
+        start_of_gap.gap_before <= start_of_gap.datum_start <= start_of_gap.datum_end,
+        start_of_gap.datum_end + start_of_gap.gap_after <= usize::MAX,
+        start_of_gap.datum_start as int % type_align as int == 0,
+//@ ensures
+        r.gap_index == start_of_gap.gap_index,
+        placed_in_gap(r, start_of_gap.datum_start - start_of_gap.gap_before, start_of_gap.datum_end + start_of_gap.gap_after,
+            start_of_gap.datum_end - start_of_gap.datum_start, type_align as int), // [C01] [C02]
+        r.kind == FittedDatumKind::StartOfGap ==> r.datum_start == start_of_gap.datum_start,
+        r.kind == FittedDatumKind::EndOfGap ==> r.datum_start > start_of_gap.datum_start,
+//@ closure 1 ret={(c: FittedDatum)}
+        ensures c == start_of_gap
+//@ closure 2 ret={(c: FittedDatum)}
+        ensures
+            c.kind == FittedDatumKind::EndOfGap,
+            c.gap_index == gap_index,
+            c.gap_before == gap_before + delta,
+            c.gap_after == gap_after - delta,
+            c.datum_start == datum_start + delta,
+            c.datum_end == datum_end + delta,
+//@ hint before delta#1
+    proof {
+        let q = gap_after as int / type_align as int;
+        vstd::arithmetic::div_mod::lemma_fundamental_div_mod(gap_after as int, type_align as int);
+        vstd::arithmetic::div_mod::lemma_mod_bound(gap_after as int, type_align as int);
+        assert(q * (type_align as int) == (type_align as int) * q) by (nonlinear_arith);
+        assert(0 <= q * type_align as int <= gap_after);
+        vstd::arithmetic::div_mod::lemma_mod_multiples_vanish(q, datum_start as int, type_align as int);
+        assert((datum_start + q * type_align as int) % (type_align as int) == 0);
+    }
 //@end
 
 } // verus!
